@@ -120,6 +120,7 @@ func init() {
 			rules.S3(rc)
 			rules.S5(rc)
 			rules.S9(rc)
+			rules.S13(rc)
 		},
 	})
 	register(&Property{
@@ -275,6 +276,7 @@ func init() {
 			rules.L0(rc, nil)
 			rules.LGuards(rc, "C16")
 			rules.T4(rc)
+			rules.S13(rc)
 		},
 	})
 	register(&Property{
